@@ -674,10 +674,18 @@ class Class(Node):
                                 imported_comp_ref = package_ref.concatenate(
                                     ComponentRef(name=component_ref.name)
                                 )
+                                # The rest of a dotted name is looked up inside
+                                # what the first identifier was imported as
+                                if component_ref.child:
+                                    full_comp_ref = imported_comp_ref.concatenate(
+                                        component_ref.child[0]
+                                    )
+                                else:
+                                    full_comp_ref = imported_comp_ref
                                 # Search within the package
                                 try:
                                     # Avoid infinite recursion with search_imports = False
-                                    c = self._find_class(imported_comp_ref, search_imports=False)
+                                    c = self._find_class(full_comp_ref, search_imports=False)
                                     found_comp_ref = imported_comp_ref
                                 except (KeyError, ClassNotFoundError):
                                     pass
